@@ -332,9 +332,8 @@ def copy_sites(chk, w):
             n += 1
             order = [x for x in g if x in ("boundaries_mut", "reset_tags", "tags_mut")]
             copies = [x for x in g if x.endswith("_from_slice")]
-            ok = order == ["boundaries_mut", "reset_tags", "tags_mut"] and len(copies) == 2
-            if crate == "predict":
-                ok = sorted(order) == ["boundaries_mut", "reset_tags", "tags_mut"] and order.index("reset_tags") < order.index("tags_mut") and len(copies) == 2
+            # the boundary copy is independent of the tag bookkeeping; only "slots are (re)sized before the tags are copied" matters
+            ok = sorted(order) == ["boundaries_mut", "reset_tags", "tags_mut"] and order.index("reset_tags") < order.index("tags_mut") and len(copies) == 2
             chk.ob("R16.5", "%s:copy-site[%d]" % (crate, k), ok, "%s copies annotations onto the other sentence as %s; expected boundaries copy, reset_tags(n_tags), tags clone (reset before the tags copy)" % (fn, g), site=C.site(b),
                    sample={"fn": fn, "sequence": g})
     chk.floor("R16.5", "copy sites", n, 4)
